@@ -43,10 +43,12 @@ for d in sorted(os.listdir(root)):
     n = now.get(d)
     if d in stale:
         cur = 'stale (the lines it edits were changed by a later fix)'
+    elif meta.get('neutralised'):
+        cur = 'neutralised: ' + esc(meta['neutralised'])[:200]
     elif n is None:
         cur = '?'
     elif not n:
-        cur = '**not reported**'
+        cur = '**not reported**' + (': ' + esc(meta['not_reported_reason'])[:300] if meta.get('not_reported_reason') else '')
     else:
         cur = short(n)
     rows.append(f"| {d} | {meta.get('property','')} | {esc(meta.get('summary',''))[:260]} | {esc(meta.get('needs',''))[:200]} | {first(meta)} | {cur} |")
